@@ -8,6 +8,7 @@ import (
 	"os"
 	"os/exec"
 	"path/filepath"
+	"regexp"
 	"sort"
 	"strconv"
 	"strings"
@@ -77,6 +78,7 @@ type scenResult struct {
 	InjectFired  bool
 	WallMs       int64
 	Sample       map[string]interface{}
+	Fatal        string
 }
 
 const padChars = "abcdefghijklmnopqrtuvwxyzABCDEFGHIJKLMNOPQRSTUVWXYZ0123456789 \t{}[]\",:;/\\\x01\x7f\x80\xfe\xff"
@@ -436,6 +438,18 @@ func runScenario(base string, sc scenario, bin string) (res scenResult) {
 		res.ExitCode = ee.ExitCode()
 		if ws, ok := ee.Sys().(syscall.WaitStatus); ok && ws.Signaled() {
 			res.ExitCode = 128 + int(ws.Signal())
+		}
+	}
+
+	if tb, err := os.ReadFile(filepath.Join(base, "tool.log")); err == nil {
+		for _, l := range strings.Split(string(tb), "\n") {
+			if i := strings.Index(l, "FATAL: "); i >= 0 {
+				msg := l[i+7:]
+				if j := strings.Index(msg, "] "); j >= 0 {
+					msg = msg[j+2:]
+				}
+				res.Fatal = regexp.MustCompile(`/\S+`).ReplaceAllString(msg, "<path>")
+			}
 		}
 	}
 
